@@ -47,6 +47,49 @@ import (
 //go:embed probes/*.tla
 var probeFS embed.FS
 
+//go:embed known/*.tla
+var knownFS embed.FS
+
+// runKnown replays the recorded behaviours of KNOWN_FINDINGS.txt through the shipped next-state
+// relation (directed scenario: deterministic KNOWN-FINDING line on the unchanged tree, silent
+// once the specification no longer admits the behaviour).
+func runKnown(r *ev.Run, runs []*specRun) {
+	for _, sr := range runs {
+		if sr.Def.Name != "dbft2.1_threeStagedCV" || sr.Missing {
+			continue
+		}
+		mod, err := knownFS.ReadFile("known/dbftCV3_fault0.tla")
+		if err != nil {
+			r.Inconclusive("embedded known-behaviour module missing: " + err.Error())
+			return
+		}
+		dir := filepath.Join(ev.Work(), "known-cv3")
+		_ = os.MkdirAll(filepath.Join(dir, "tmp"), 0o755)
+		_ = os.WriteFile(filepath.Join(dir, sr.Def.File), sr.Text, 0o644)
+		_ = os.WriteFile(filepath.Join(dir, "MC_known.tla"), mod, 0o644)
+		cfg := "CONSTANTS\n  RM = {0, 1, 2, 3}\n  RMFault = {0}\n  RMDead = {}\n  MaxView = 1\nINIT GInit\nNEXT GNext\nCONSTRAINT " + sr.Constr + "\nINVARIANTS\n"
+		for _, i := range sr.Invs {
+			cfg += "  " + i + "\n"
+		}
+		_ = os.WriteFile(filepath.Join(dir, "MC.cfg"), []byte(cfg), 0o644)
+		args := append(tlcCommand()[1:], "-deadlock", "-noGenerateSpecTE", "-workers", "1", "-metadir", filepath.Join(dir, "meta"), "-config", "MC.cfg", "MC_known.tla")
+		ctx, cancel := context.WithTimeout(context.Background(), 5*time.Minute)
+		cmd := exec.CommandContext(ctx, tlcCommand()[0], args...)
+		cmd.Dir = dir
+		cmd.Env = append(os.Environ(), "JAVA_TOOL_OPTIONS=-Xmx512m -Djava.io.tmpdir="+filepath.Join(dir, "tmp"))
+		out, _ := cmd.CombinedOutput()
+		cancel()
+		r.Count("directed_known_behaviours_replayed", 1)
+		o := string(out)
+		if i := strings.Index(o, "Invariant "); i >= 0 && strings.Contains(o, " is violated") {
+			inv := strings.Fields(o[i+len("Invariant "):])[0]
+			r.Violation("invariant:"+inv+":"+sr.Def.Name+":fault",
+				fmt.Sprintf("formal-models/%s/%s with RMFault={0}, MaxView=1: invariant %s is violated by the recorded 23-state behaviour (one Byzantine primary), replayed through the shipped Next", sr.Def.Name, sr.Def.File, inv),
+				map[string]any{"module": "harness/cmd/c20/known/dbftCV3_fault0.tla", "cfg": cfg, "tlc_output": strings.Split(clip(o, 20000), "\n")})
+		}
+	}
+}
+
 // specDef describes one shipped specification.
 type specDef struct {
 	Name     string // directory name under formal-models (unique)
@@ -195,6 +238,7 @@ func configsFor(thorough bool, seed int64, si int) []config {
 	// with a bad node is covered by the "both" case.
 	return []config{
 		{"{}", "{}", 1, "allgood", true},
+		{"{}", "{}", 2, "allgood", false}, // two view changes with all nodes good (longer behaviours)
 		{set(i), "{}", 1, "fault", false},
 		{"{}", set(j), a, "dead", false},
 		{set(k), set(k), 2, "both", false},
@@ -638,6 +682,7 @@ func main() {
 
 	// ---- evaluate (deterministic order) ----------------------------------------
 	evaluate(r, runs, jobs, thorough)
+	runKnown(r, runs)
 	_ = os.RemoveAll(work)
 	r.Finish()
 }
@@ -806,7 +851,7 @@ func evaluate(r *ev.Run, runs []*specRun, jobs []*job, thorough bool) {
 			totalTraces += m.Traces
 			r.Eval(m.Traces)
 			inv := m.Violated
-			report("invariant:"+inv+":"+sr.Def.Name,
+			report("invariant:"+inv+":"+sr.Def.Name+":"+m.Cfg.Kind,
 				fmt.Sprintf("TLC simulation of formal-models/%s/%s with %s: invariant %s is violated in a generated behaviour of %d states (after %d traces / %d states)",
 					sr.Def.Name, sr.Def.File, m.Cfg, inv, m.TraceLen, m.Traces, m.States),
 				witness(m, map[string]any{"invariant": inv, "trace_states": m.TraceLen, "trace": strings.Split(clip(m.Trace, 60000), "\n")}))
